@@ -256,6 +256,17 @@ func registerTimeCtx() {
 		now := e.clockRead()
 		return withDeadline(e, th, a[0], BVBin("bvadd", now, a[1].(*Term)))
 	})
+	// time.After(d): a channel that becomes ready once the clock has passed now+d (modelled as closed at that
+	// instant: the value received is the zero time; lime-go never looks at it)
+	reg("time.After", func(e *Exec, th *Thread, a []Value) Value {
+		now := e.clockRead()
+		e.ctxSeq++
+		c := &CtxData{id: e.ctxSeq, err: IfaceV{}, cancelable: true, hasDeadline: true, deadline: BVBin("bvadd", now, a[0].(*Term))}
+		ct := types.NewChan(types.RecvOnly, e.lookupType("time", "Time"))
+		c.done = e.makeChan(ct, 0).c
+		e.timers = append(e.timers, c)
+		return ChanV{c: c.done}
+	})
 	reg("context.WithValue", func(e *Exec, th *Thread, a []Value) Value {
 		c := e.newCtx(th, a[0])
 		c.key = a[1]
